@@ -129,6 +129,9 @@ def modify_logits_for_top_p_filtering(logits, top_p):
 
     # Remove tokens with cumulative top_p above the threshold (token with 0 are kept)
     sorted_indices_to_remove = cumulative_probs <= (1 - top_p)
+    # Always keep the most likely action: for a tiny top_p, `1 - top_p` rounds to 1 and
+    # the last cumulative sum would be removed as well (all -inf -> NaN probabilities)
+    sorted_indices_to_remove[..., -1] = False
 
     # Scatter sorted tensors to original indexing
     indices_to_remove = sorted_indices_to_remove.scatter(
